@@ -67,9 +67,24 @@ def zero_fork_inputs(c, delays):
     return d
 
 
-def wave_options(rng):
-    k = wk.gen_wave_case(rng, capmode=rng.choice(['8', '16']), sims=rng.choice([2, 3, 5]), reuse=False)
-    k.tcap = rng.choice([None, 5, 9])
+def nonmonotone_stem(w, c):
+    """True if some fork input carries a waveform whose timestamps are not strictly increasing (possible with
+    polarity-dependent delays): a zero-delay fork evaluation is then not the identity"""
+    for f in c.forks.values():
+        for l in f.ins:
+            if l is None:
+                continue
+            for lane in range(w.sims):
+                body, term = wo.waveform(w, l.index, lane)
+                if body and any(body[i] >= body[i + 1] for i in range(len(body) - 1)):
+                    return True
+    return False
+
+
+def wave_options(rng, k=None):
+    if k is None:
+        k = wk.gen_wave_case(rng, capmode=rng.choice(['8', '16']), sims=rng.choice([2, 3, 5]), reuse=False)
+        k.tcap = rng.choice([None, 5, 9])
     k.delays = zero_fork_inputs(k.c, k.delays)
     # the CPU s_to_c tests != 0, the kernel >= 0.5: compare on 0/1 stimuli as the property intends
     desc = dict(wk.describe(k), kind='wave')
@@ -82,6 +97,8 @@ def wave_options(rng):
         v = port_view(w)
         if not np.array_equal(ref, v):
             col, p, l = np.argwhere(ref != v)[0]
+            if strip and nonmonotone_stem(base, k.c):
+                desc['class'] = 'strip-nonmonotone-stem'
             return desc, (f'{"WaveSimCuda" if cuda else "WaveSim"} c_reuse={reuse} strip_forks={strip}: s[{COLS[col]}] position {p} lane {l} = '
                           f'{v[col, p, l]}, reference (CPU, options off) {ref[col, p, l]}')
         if not reuse and not strip and not np.array_equal(np.asarray(w.c), np.asarray(base.c)):
@@ -165,10 +182,12 @@ def run(ck):
         ck.nontrivial(('l', i))
         if what:
             fails.append((desc, what))
-    for i in range(ck.scale(25, 800)):
-        st = rng.getstate()
+    import json, os
+    corpus = os.path.join(os.path.dirname(os.path.dirname(os.path.dirname(os.path.abspath(__file__)))), 'harness', 'corpus', 'C06_strip_nonmonotone.json')
+    queue = [wk.from_description(json.load(open(corpus)))] if os.path.exists(corpus) else []
+    for i in range(ck.scale(25, 800) + len(queue)):
         try:
-            desc, what = wave_options(rng)
+            desc, what = wave_options(rng, queue.pop(0) if queue else None)
         except Exception:
             desc, what = {'kind': 'wave'}, 'raises ' + traceback.format_exc()[-500:]
         ck.count(1, 'wave-option-sets')
@@ -177,15 +196,17 @@ def run(ck):
             fails.append((desc, what))
         if i < 2:
             ck.sample({'kind': 'wave', 'nodes': len(desc.get('circuit', {}).get('nodes', [])), 'sims': desc.get('sims'), 'c_caps': desc.get('c_caps')})
-    ck.obligation('option / lane / code-path invariance holds on every generated configuration set', not fails, 'correspondence',
-                  fails[0][1] if fails else '')
+    keyof = lambda d: 'options:' + d.get('kind', '?') + (':' + d['class'] if 'class' in d else '')
+    unknown = [f for f in fails if ck.known_entry(keyof(f[0])) is None]
+    ck.obligation('option / lane / code-path invariance holds on every generated configuration set (listed known findings excepted)',
+                  not unknown, 'correspondence', unknown[0][1] if unknown else '')
     ck.rule('per circuit: LogicSim m=2/4/8 x {c_reuse} x {strip_forks} x more lanes x lane permutation; WaveSim/WaveSimCuda x {c_reuse} x '
             '{strip_forks with zero delay on fork inputs} x more lanes x lane permutation x c_prop(sims=j) x delay-dataset modes 0 and 1')
     ck.trust('no Coq theorem is specific to this property yet: it is decided here by differential execution of the implementation '
              'against itself over all option pairs; the models of SimOps/LogicSim/WaveSim (C01-C05) are option-parametric and tied by '
              'correspondence for every option setting')
     for desc, what in fails[:5]:
-        ck.fail('options:' + desc.get('kind', '?'), what, {'component': 'SimOps / LogicSim / WaveSim / WaveSimCuda options', 'input': desc, 'actual': what})
+        ck.fail(keyof(desc), what, {'component': 'SimOps / LogicSim / WaveSim / WaveSimCuda options', 'input': desc, 'actual': what})
 
 
 def replay(rp):
